@@ -74,7 +74,10 @@ ImageRules == {
   R("img.image", "subvariant", "none", "reject"), R("img.image", "subvariant", "int", "reject"),
   R("img.image", "additional_variants", "none", "reject"), R("img.image", "additional_variants", "str", "reject"),
   R("img.image", "additional_variants", "tuple", "na"),
-  R("img.plainimage", "additional_variants", "nonempty", "reject") }
+  R("img.plainimage", "additional_variants", "nonempty", "reject"),
+  \* document-only: one identifying attribute replaced so that the record collides (different checksums) with an image
+  \* listed under ANOTHER arch key - the manifest-level uniqueness rule
+  R("img.twinimage", "identity", "doc:collide", "reject") }
 TiRules == {
   R("ti.release", "name", "none", "na"), R("ti.release", "short", "none", "na"),
   R("ti.release", "version", "trailingdot", "reject"), R("ti.release", "version", "alnum", "reject"), R("ti.release", "version", "none", "na"),
@@ -112,7 +115,7 @@ Rules == ComposeRules \cup CiRules \cup ImageRules \cup TiRules \cup DiRules
 
 \* node kinds a dump of each format visits and validates (composeinfo.py / images.py / treeinfo.py serialize chains)
 Walk == [ composeinfo |-> {"compose", "compose+label", "ci.release", "ci.base_product", "ci.variant", "ci.childvariant", "ci.grandchild", "ci.vrelease"},
-          images      |-> {"compose", "compose+label", "img.image", "img.plainimage"},
+          images      |-> {"compose", "compose+label", "img.image", "img.plainimage", "img.twinimage"},
           rpms        |-> {"compose", "compose+label"},
           modules     |-> {"compose", "compose+label"},
           extra_files |-> {"compose", "compose+label"},
